@@ -225,3 +225,49 @@ Proof.
   split; [intros A B; apply Z.leb_le in A; apply Z.leb_le in B; lia|].
   destruct (Z.lt_trichotomy x y) as [H|[H|H]]; [left; apply Z.ltb_lt; exact H|right; left; exact H|right; right; apply Z.ltb_lt; exact H].
 Qed.
+
+(* ---- which error: an operator of these families fails only with the nil/type error of its operand pair
+   (nil if either operand is absent, type otherwise), % in addition with division by zero ---- *)
+Definition is_num (v : value) : bool := match v with VInt _ | VFloat _ => true | _ => false end.
+Definition is_int (v : value) : bool := match v with VInt _ => true | _ => false end.
+Definition is_boolv (v : value) : bool := match v with VBool _ => true | _ => false end.
+
+Lemma relational_defined op a b :
+  (is_num a && is_num b = true -> exists r, Relational op a b = Ok (VBool r)) /\
+  (is_num a && is_num b = false -> Relational op a b = Fail (nil_or_type a b)).
+Proof.
+  split; intros H; destruct a, b; cbn in H; try discriminate H; cbn [Relational]; try reflexivity; eexists; reflexivity.
+Qed.
+
+Lemma logic_defined op a b :
+  ((is_int a && is_int b) || (is_boolv a && is_boolv b) = true -> exists r, Logic op a b = Ok r) /\
+  ((is_int a && is_int b) || (is_boolv a && is_boolv b) = false -> Logic op a b = Fail (nil_or_type a b)).
+Proof.
+  split; intros H; destruct a, b; cbn in H; try discriminate H; cbn [Logic]; try reflexivity; eexists; reflexivity.
+Qed.
+
+Lemma shift_defined op a b :
+  (is_int a && is_int b = false -> Shift op a b = Fail (nil_or_type a b)).
+Proof.
+  intros H; destruct a, b; cbn in H; try discriminate H; cbn [Shift]; reflexivity.
+Qed.
+
+Lemma mod_defined a b :
+  (is_int a && is_int b = false -> Mod a b = Fail (nil_or_type a b)) /\
+  (forall e, Mod a b = Fail e -> e = ErrZeroDiv \/ e = nil_or_type a b).
+Proof.
+  split.
+  - intros H; destruct a, b; cbn in H; try discriminate H; cbn [Mod]; reflexivity.
+  - intros e H. destruct a, b; cbn [Mod] in H; try (right; inversion H; reflexivity).
+    destruct (_ =? 0) in H; inversion H. left; reflexivity.
+Qed.
+
+Lemma nil_or_type_cases a b :
+  (nil_or_type a b = ErrNil <-> (a = VNil \/ b = VNil)) /\ (nil_or_type a b = ErrNil \/ nil_or_type a b = ErrType).
+Proof.
+  unfold nil_or_type. split.
+  - split.
+    + intros H. destruct a; cbn in H; try (left; reflexivity); destruct b; cbn in H; try discriminate H; right; reflexivity.
+    + intros [H|H]; subst; cbn; [reflexivity|]. rewrite Bool.orb_true_r. reflexivity.
+  - destruct (is_nil a || is_nil b); [left|right]; reflexivity.
+Qed.
